@@ -473,3 +473,14 @@ package utils
 //@     assert[C07:upload-error-queued-once-without-blocking] queued == 0 && posts == 1 && arg1 != nil && chlen(postErrChan) < chcap(postErrChan)
 //@     do queued = queued + 1
 //@   ensures[C01:one-upload-per-forwarder] posts == 1
+// when the upload ends - with an error, or given up without one after 5xx replies - the read side of the pipe is
+// closed, so that the goroutine serialising the backend's response (and with it the backend-facing handler) is not left
+// blocked in a write nobody will read (C06)
+//@   ghost readerCloses int = 0
+//@   call (*io.PipeReader).Close
+//@     assert[C06:only-the-forwarders-own-pipe-is-closed] arg0 == proxyReader
+//@     do readerCloses = readerCloses + 1
+//@   call (*io.PipeReader).CloseWithError
+//@     assert[C06:only-the-forwarders-own-pipe-is-closed] arg0 == proxyReader
+//@     do readerCloses = readerCloses + 1
+//@   ensures[C06:upload-end-always-releases-the-serialising-side] readerCloses >= 1
